@@ -49,7 +49,7 @@ def concretize(model, v):
             raise NotConstructible('ordinal out of range')
         return {'__dt__': [d.year, d.month, d.day, s // 3600, s % 3600 // 60, s % 60], 'is_date': v.is_date}
     if isinstance(v, STimedelta):
-        return {'__td__': concretize(model, v.total)}
+        return {'__td__': concretize(model, v.days) * 86400 + concretize(model, v.secs)}
     if isinstance(v, Obj):
         if v.cls is None:
             return {'__opaque__': v.label}
@@ -71,6 +71,14 @@ def concretize(model, v):
         return out
     if isinstance(v, SArr):
         n = scalar(model, v.n) if isinstance(v.n, Sym) else v.n
+        if v.elem == 'dt':
+            out = []
+            for i in range(min(n, 64)):
+                o = _ev(model, z3.Select(v.arr, i)).as_long()
+                s = _ev(model, z3.Select(v.arr2, i)).as_long()
+                d = _dt.date.fromordinal(o)
+                out.append({'__dt__': [d.year, d.month, d.day, s // 3600, s % 3600 // 60, s % 60]})
+            return out
         return [_elem(model, _ev(model, z3.Select(v.arr, i)), v.elem) for i in range(min(n, 64))]
     if isinstance(v, SRecList):
         n = scalar(model, v.n) if isinstance(v.n, Sym) else v.n
